@@ -492,8 +492,14 @@ pub fn eval_unit_name(
                 }
                 let right_unit = right_unit
                     .into_iter()
-                    .map(|(k, v)| (k, -v))
-                    .collect::<BTreeMap<_, _>>();
+                    .map(|(k, v)| v.checked_neg().map(|v| (k, v)))
+                    .collect::<Option<BTreeMap<_, _>>>()
+                    .ok_or_else(|| {
+                        QueryError::generic(
+                            "Exponent is too large in the right hand side of conversion"
+                                .to_string(),
+                        )
+                    })?;
                 Ok((
                     crate::algorithms::btree_merge(&left_unit, &right_unit, |a, b| {
                         if a + b != 0 {
@@ -537,20 +543,22 @@ pub fn eval_unit_name(
                         "Division by zero in the right hand side of conversion".to_string(),
                     ));
                 }
-                Ok((
-                    left_unit
-                        .into_iter()
-                        .filter_map(|(k, v)| {
-                            let v = v * right as isize;
-                            if v != 0 {
-                                Some((k, v))
-                            } else {
-                                None
-                            }
-                        })
-                        .collect::<BTreeMap<_, _>>(),
-                    left_value.pow(right),
-                ))
+                // The names carry their own exponents, which the value
+                // does not bound: `liter/dm^3` is the number one.
+                let unit = left_unit
+                    .into_iter()
+                    .map(|(k, v)| v.checked_mul(right as isize).map(|v| (k, v)))
+                    .collect::<Option<BTreeMap<_, _>>>()
+                    .ok_or_else(|| {
+                        QueryError::generic(
+                            "Exponent is too large in the right hand side of conversion"
+                                .to_string(),
+                        )
+                    })?
+                    .into_iter()
+                    .filter(|&(_, v)| v != 0)
+                    .collect::<BTreeMap<_, _>>();
+                Ok((unit, left_value.pow(right)))
             }
             BinOpType::ShiftL | BinOpType::ShiftR => Err(QueryError::generic(
                 "Shifts are not allowed in the right hand side of conversions".to_string(),
